@@ -107,8 +107,16 @@ class Fn:
         return card_admitted(self.guards(a), name_subject(var))
 
     def has_guard(self, a: ast.AST, text: str, pol: bool = True, expand: bool = True) -> bool:
+        from .guards import canon_atom
+        try:
+            want = canon_atom(ast.parse(text, mode='eval').body, pol)
+        except SyntaxError:
+            want = None
         for g, p in self.guards(a):
             if p == pol and (norm(g) == text or (expand and self.copies.xnorm(g) == text)):
+                return True
+            # `x not in y` held false is `x in y` held true
+            if want is not None and canon_atom(g, p) == want:
                 return True
         return False
 
